@@ -213,7 +213,7 @@ class FileSystem(object):
         self.passthrough = []
         self.path_to_inode = {} # Real path (post-resolution) -> inode number
 
-    def resolve_path(self, path, follow_link=True):
+    def resolve_path(self, path, follow_link=True, _depth=0):
         """Resolve @path to the corresponding sandboxed path"""
 
         # path_bytes is used for Python 2 / Python 3 compatibility
@@ -265,8 +265,9 @@ class FileSystem(object):
                         return re.compile(r'$X')
                 return expr
 
-        # Remove '../', etc.
-        path = os.path.normpath(path)
+        # Remove '../', etc. Relative paths are relative to the sandbox root,
+        # above which '..' cannot climb
+        path = os.path.normpath(os.path.join(path_sep, path))
 
         # Passthrough
         for passthrough in self.passthrough:
@@ -280,16 +281,30 @@ class FileSystem(object):
         path = path.lstrip(path_sep)
 
         base_path = os.path.abspath(_convert(self.base_path))
-        out_path = os.path.join(base_path, path)
-        assert out_path.startswith(base_path + path_sep)
-        if os.path.islink(out_path):
-            link_target = os.readlink(out_path)
-            # Link can be absolute or relative -> absolute
-            link = os.path.normpath(os.path.join(os.path.dirname(path), link_target))
-            if follow_link:
-                out_path = self.resolve_path(link)
-            else:
-                out_path = link
+        # Walk the path component by component, as a chroot would: a symbolic
+        # link met on the way is resolved inside the sandbox, never by the host
+        out_path = base_path
+        components = [elt for elt in path.split(path_sep) if elt]
+        for index, component in enumerate(components):
+            sub_path = os.path.join(out_path, component)
+            is_last = (index == len(components) - 1)
+            if os.path.islink(sub_path) and (follow_link or not is_last):
+                if _depth > 40:
+                    raise RuntimeError("Too many levels of symbolic links")
+                link_target = os.readlink(sub_path)
+                # Link can be absolute or relative -> absolute (in the sandbox)
+                link = os.path.normpath(os.path.join(
+                    path_sep + path_sep.join(components[:index]),
+                    link_target
+                ))
+                remaining = components[index + 1:]
+                return self.resolve_path(
+                    os.path.join(link, *remaining),
+                    follow_link=follow_link,
+                    _depth=_depth + 1
+                )
+            out_path = sub_path
+        assert (out_path + path_sep).startswith(base_path + path_sep)
         return out_path
 
     def get_path_inode(self, real_path):
@@ -318,7 +333,7 @@ class FileSystem(object):
     def getattr_(self, path, follow_link=True):
         sb_path = self.resolve_path(path, follow_link=follow_link)
         flags = self.linux_env.O_RDONLY
-        if os.path.isdir(sb_path):
+        if not os.path.islink(sb_path) and os.path.isdir(sb_path):
             flags |= self.linux_env.O_DIRECTORY
 
         fd = self.open_(path, flags, follow_link=follow_link)
@@ -328,6 +343,10 @@ class FileSystem(object):
 
     def open_(self, path, flags, follow_link=True):
         path = self.resolve_path(path, follow_link=follow_link)
+        if os.path.islink(path):
+            # The link itself is requested (follow_link is not set); do not
+            # let the host follow it
+            raise RuntimeError("Not implemented")
         if not os.path.exists(path):
             # ENOENT (No such file or directory)
             return -1
